@@ -35,7 +35,8 @@ Empty == <<>>
 Lower(c)      == IF c >= 65 /\ c <= 90 THEN c + 32 ELSE c
 LowerLabel(x) == [i \in 1..Len(x) |-> Lower(x[i])]
 LowerAll(n)   == [i \in 1..Len(n) |-> LowerLabel(n[i])]
-SameName(a, b) == LowerAll(a) = LowerAll(b)          \* equality as DNS names
+SameLabel(x, y) == Len(x) = Len(y) /\ \A i \in 1..Len(x) : Lower(x[i]) = Lower(y[i])
+SameName(a, b)  == Len(a) = Len(b) /\ \A i \in 1..Len(a) : SameLabel(a[i], b[i])   \* equality as DNS names
 
 IsAbs(n) == Len(n) > 0 /\ n[Len(n)] = <<>>
 
@@ -83,7 +84,7 @@ Cmp(a, b) == IF IsAbs(a) # IsAbs(b) THEN (IF IsAbs(a) THEN 1 ELSE -1) ELSE CmpFr
 RECURSIVE CommonFrom(_, _, _)
 CommonFrom(a, b, k) ==
     IF k = Len(a) \/ k = Len(b) THEN k
-    ELSE IF LowerLabel(a[Len(a) - k]) = LowerLabel(b[Len(b) - k]) THEN CommonFrom(a, b, k + 1)
+    ELSE IF SameLabel(a[Len(a) - k], b[Len(b) - k]) THEN CommonFrom(a, b, k + 1)
     ELSE k
 Common(a, b) == IF IsAbs(a) # IsAbs(b) THEN 0 ELSE CommonFrom(a, b, 0)
 
